@@ -38,7 +38,14 @@ type HIDIConfigRaw struct {
 	} `toml:"HIDI"`
 }
 
-func LoadHIDIConfig(path string) (HIDIConfig, error) {
+func LoadHIDIConfig(path string) (cfg HIDIConfig, err error) {
+	// the toml decoder is known to panic on some malformed documents
+	defer func() {
+		if r := recover(); r != nil {
+			cfg, err = HIDIConfig{}, fmt.Errorf("parsing \"%s\" failed: %v", path, r)
+		}
+	}()
+
 	data, err := os.ReadFile(path)
 	if err != nil {
 		return HIDIConfig{}, fmt.Errorf("cannot read \"%s\" file: %w", path, err)
